@@ -60,6 +60,18 @@ func runSearch(path string) {
 				}
 				c.AddDocument(u(f[1]), v, mh(f[2]))
 				fmt.Fprintln(out, "ok")
+			case "badadd":
+				// AddDocument with a vector of the wrong length: the library refuses by panicking; the caller recovers
+				// and goes on using the collection, which must be as it was
+				func() {
+					defer func() {
+						if e := recover(); e != nil {
+							fmt.Fprintln(out, "rejected")
+						}
+					}()
+					c.AddDocument(u(f[1]), make([]float64, dim+int(u(f[2]))), mh("-"))
+					fmt.Fprintln(out, "accepted")
+				}()
 			case "rm":
 				if err := c.VerifRemoveDocument(u(f[1])); err != nil {
 					fmt.Fprintln(out, "err")
@@ -75,7 +87,12 @@ func runSearch(path string) {
 			case "reopen":
 				c.Close()
 				var err error
-				c, err = syz.NewCollection(syz.CollectionOptions{Name: path, FileMode: syz.ReadWrite})
+				opts := syz.CollectionOptions{Name: path, FileMode: syz.ReadWrite}
+				if len(f) == 4 {
+					// reopen <metric> <dim> <quantization>: options that conflict with the stored ones must be ignored
+					opts.DistanceMethod, opts.DimensionCount, opts.Quantization = int(u(f[1])), int(u(f[2])), int(u(f[3]))
+				}
+				c, err = syz.NewCollection(opts)
 				if err != nil {
 					fmt.Fprintln(out, "ERR", err)
 					return
